@@ -12,7 +12,13 @@ the enumerated schedules.
 Settings files: both kinds of preprocessing settings the command line accepts
 (HVSR-style and PSD-style; the latter writes an FFT length resolved from the whole
 recording into the PREprocessing settings object and uses it to differentiate)
-and the processing settings kinds, with and without nested fft_settings dicts.
+and the processing settings kinds, with every shape of the nested fft_settings entry a settings file can
+carry: null, an EMPTY dict, {"n": null} and {"n": <int>}.
+
+Input names: the name is what `read` receives and records under "file name(s)" in the CSV header, so the CSV is
+compared byte for byte - header included - with the library pipeline given THE SAME NAME AS TYPED on the command
+line.  Besides absolute normal names the batch files are spelled relative to the working directory, with a
+leading "./", with a doubled separator, with an inner "/./" and through "..".
 """
 import hashlib
 import itertools
@@ -64,6 +70,14 @@ PRE_PSD = {
     "pre_psd_diff_fftn": dict(window_length_in_seconds=80.0, detrend="constant", differentiate=True,
                               filter_corner_frequencies_in_hz=[0.3, 20.0], orient_to_degrees_from_north=30.0,
                               fft_settings={"n": 1024}),
+    # an EMPTY fft_settings dict ("no keyword arguments for the FFT"): falsy, yet a mutable object into which
+    # the resolved length is written; and {"n": null} ("FFT as long as the longest record, not padded")
+    "pre_psd_diff_fft0": dict(window_length_in_seconds=80.0, detrend="linear", differentiate=True,
+                              filter_corner_frequencies_in_hz=[None, None], orient_to_degrees_from_north=0.0,
+                              fft_settings={}),
+    "pre_psd_diff_fftnull": dict(window_length_in_seconds=80.0, detrend="linear", differentiate=True,
+                                 filter_corner_frequencies_in_hz=[None, None], orient_to_degrees_from_north=0.0,
+                                 fft_settings={"n": None}),
     # the resolved length is written into the settings but never used
     "pre_psd_nodiff": dict(window_length_in_seconds=80.0, detrend="linear", differentiate=False,
                            filter_corner_frequencies_in_hz=[None, None], orient_to_degrees_from_north=0.0),
@@ -75,7 +89,26 @@ PROC = {
     # an explicit (nested, mutable) fft_settings dict: process() writes the resolved length INTO it
     "trad_fftn": ("HvsrTraditionalProcessingSettings", dict(method_to_combine_horizontals="squared_average",
                                                             fft_settings={"n": 1024})),
+    # the other two shapes of the entry: an empty dict (falsy, mutable) and {"n": null}
+    "trad_fft0": ("HvsrTraditionalProcessingSettings", dict(method_to_combine_horizontals="geometric_mean",
+                                                            fft_settings={})),
+    "trad_fftnull": ("HvsrTraditionalProcessingSettings", dict(method_to_combine_horizontals="geometric_mean",
+                                                               fft_settings={"n": None})),
 }
+# shape of the fft_settings entry of each settings file (None = the file carries null)
+FFT_SHAPE = {"trad_fftn": "int-n", "trad_fft0": "empty-dict", "trad_fftnull": "null-n",
+             "pre_psd_diff_fftn": "int-n", "pre_psd_diff_fft0": "empty-dict", "pre_psd_diff_fftnull": "null-n"}
+# settings combinations that only differ from an already enumerated one in the SHAPE of an fft_settings entry.
+# The settings objects are pickled once per chunk, so the shape can only matter between files of one chunk:
+# the quick tier runs these on every batch with --nproc 1 (one chunk holding the whole batch).
+PROC_BASE = ["trad", "azi", "diffuse", "trad_fftn"]
+SHAPE_COMBOS = [("pre_plain", "trad_fft0"), ("pre_psd_diff_fft0", "trad"),
+                ("pre_plain", "trad_fftnull"), ("pre_psd_diff_fftnull", "trad")]
+
+# spellings of an input name on the command line (default: absolute and normal).  `read` records the name
+# it is given in the metadata and `write` puts it into the CSV header: part of the result.
+SPELLINGS = ["rel", "dot-rel", "double-sep", "inner-dot", "dotdot"]
+SP_STEMS = ("A100", "D050")
 
 DISTS_MIXED = [["normal", "lognormal"], ["lognormal", "normal"], ["normal", "normal"]]   # (mc, fn)
 
@@ -141,28 +174,61 @@ def _in_child(fn):
     return pid
 
 
+def _spelled(d, stem, spell, cwd):
+    """The name of input `stem` as typed on the command line by somebody whose working directory is cwd."""
+    base = stem + ".mseed"
+    if spell in (None, "abs"):
+        return os.path.join(d, base)
+    if spell == "rel":
+        return os.path.join(os.path.relpath(d, cwd), base)
+    if spell == "dot-rel":
+        return "./" + os.path.join(os.path.relpath(d, cwd), base)
+    if spell == "double-sep":
+        return d + "//" + base
+    if spell == "inner-dot":
+        return d + "/./" + base
+    if spell == "dotdot":
+        return os.path.join(d, "..", os.path.basename(d), base)
+    raise ValueError(spell)
+
+
+def _spell_tag(spell):
+    return "" if spell in (None, "abs") else f"__name-{spell}"
+
+
 def _dist_tag(dist):
     return "" if not dist or list(dist) == ["lognormal", "lognormal"] else f"__{dist[0]}-{dist[1]}"
 
 
-def _reference_job(d, stem, pre, proc, dist=None):
-    """read -> preprocess -> process -> write for one file alone, fresh settings."""
+def _reference_job(d, stem, pre, proc, dist=None, spell=None):
+    """read -> preprocess -> process -> write for one file alone, fresh settings; the file is named as it
+    is on the command line (relative spellings: from a working directory that is a sibling of the ones the
+    command line runs in, so that the relative name is the same string)."""
     dist = list(dist or ["lognormal", "lognormal"])
 
     def job():
         import hvsrpy
         from hvsrpy.object_io import read_settings_object_from_file
-        out = os.path.join(d, "ref", f"{pre}__{proc}{_dist_tag(dist)}")
+        out = os.path.join(d, "ref", f"{pre}__{proc}{_dist_tag(dist)}{_spell_tag(spell)}")
         os.makedirs(out, exist_ok=True)
         ps = read_settings_object_from_file(os.path.join(d, pre + ".json"))
         pr = read_settings_object_from_file(os.path.join(d, proc + ".json"))
-        fname = os.path.join(d, stem + ".mseed")
-        recs = hvsrpy.read([[fname]])
-        recs = hvsrpy.preprocess(recs, ps)
-        hv = hvsrpy.process(recs, pr)
-        tmp = os.path.join(out, f"{stem}.{os.getpid()}.tmp")
-        hvsrpy.write_hvsr_object_to_file(hv, tmp, distribution_mc=dist[0], distribution_fn=dist[1])
-        os.replace(tmp, os.path.join(out, stem + ".csv"))
+        cwd = tempfile.mkdtemp(prefix="c19-refcwd-")
+        try:
+            os.chdir(cwd)
+            fname = _spelled(d, stem, spell, cwd)
+            recs = hvsrpy.read([[fname]])
+            recs = hvsrpy.preprocess(recs, ps)
+            hv = hvsrpy.process(recs, pr)
+            tmp = os.path.join(out, f"{stem}.{os.getpid()}.tmp")
+            hvsrpy.write_hvsr_object_to_file(hv, tmp, distribution_mc=dist[0], distribution_fn=dist[1])
+            os.replace(tmp, os.path.join(out, stem + ".csv"))
+            with open(tmp, "w") as f:
+                f.write(fname)
+            os.replace(tmp, os.path.join(out, stem + ".name"))
+        finally:
+            os.chdir(d)
+            shutil.rmtree(cwd, ignore_errors=True)
     return job
 
 
@@ -190,9 +256,18 @@ def _combos(tier):
     if tier == "quick":
         return [("pre_plain", "trad"), ("pre_filt", "azi"), ("pre_plain", "trad_fftn"),
                 ("pre_psd_diff", "trad"), ("pre_psd_diff_fftn", "trad")]
-    return ([(a, b) for a in PRE for b in PROC] +
-            [("pre_psd_diff", b) for b in PROC] +
+    return ([(a, b) for a in PRE for b in PROC_BASE] +
+            [("pre_psd_diff", b) for b in PROC_BASE] +
             [("pre_psd_diff_fftn", "trad"), ("pre_psd_nodiff", "trad")])
+
+
+def _shape_combos(tier):
+    # thorough: also both settings files with an empty dict at once
+    return SHAPE_COMBOS + ([] if tier == "quick" else [("pre_psd_diff_fft0", "trad_fft0")])
+
+
+def _ref_combos(tier):
+    return _combos(tier) + _shape_combos(tier)
 
 
 def _stems(tier):
@@ -221,11 +296,13 @@ def warm(tier="quick"):
     f = np.fft.rfftfreq(16, 0.01)
     SMOOTHING_OPERATORS["konno_and_ohmachi"](f, np.ones((2, len(f))), np.array([5.0]), 40)
     pids = []
-    jobs = [(stem, pre, proc, None) for (pre, proc) in _combos(tier) for stem in _stems(tier)]
-    jobs += [(stem, "pre_short", "trad", None) for stem in HI]
-    jobs += [(stem, "pre_plain", proc, dist) for stem in ("A100",) for proc in ("trad", "azi") for dist in DISTS_MIXED]
-    for (stem, pre, proc, dist) in jobs:
-            pids.append(_in_child(_reference_job(d, stem, pre, proc, dist)))
+    jobs = [(stem, pre, proc, None, None) for (pre, proc) in _ref_combos(tier) for stem in _stems(tier)]
+    jobs += [(stem, "pre_short", "trad", None, None) for stem in HI]
+    jobs += [(stem, "pre_plain", proc, dist, None) for stem in ("A100",) for proc in ("trad", "azi")
+             for dist in DISTS_MIXED]
+    jobs += [(stem, "pre_plain", "trad", None, spell) for stem in SP_STEMS for spell in SPELLINGS]
+    for (stem, pre, proc, dist, spell) in jobs:
+            pids.append(_in_child(_reference_job(d, stem, pre, proc, dist, spell)))
             if len(pids) >= 12:
                 os.waitpid(pids.pop(0), 0)
     pids.append(_in_child(_control_job(d)))
@@ -237,8 +314,9 @@ def warm(tier="quick"):
 # ---------------------------------------------------------------------------
 # running the CLI
 
-def _cli_args(d, files, nproc, pre, proc, dist=None):
-    args = [os.path.join(d, s + ".mseed") for s in files]
+def _cli_args(d, files, nproc, pre, proc, dist=None, spell=None, cwd=None):
+    spell = spell or [None] * len(files)
+    args = [_spelled(d, s, sp, cwd or os.getcwd()) for s, sp in zip(files, spell)]
     if dist:
         args += ["--distribution_mc", dist[0], "--distribution_fn", dist[1]]
     args += ["--preprocessing_settings_file", os.path.join(d, pre + ".json"),
@@ -264,7 +342,8 @@ def _invoke(args, pool_cls, cpu=None):
 def _probe(d, root):
     vpool.VirtualPool.mode = "probe"
     try:
-        _invoke(_cli_args(d, root["files"], root["nproc"], root["pre"], root["proc"], root.get("dist")),
+        _invoke(_cli_args(d, root["files"], root["nproc"], root["pre"], root["proc"], root.get("dist"),
+                          root.get("spell")),
                 vpool.VirtualPool, cpu=root.get("cpu"))
     except vpool.ProbeDone:
         pass
@@ -294,7 +373,8 @@ def _run_schedule(d, root, assignment):
         old = sys.stdout
         sys.stdout = devnull
         try:
-            _invoke(_cli_args(d, root["files"], root["nproc"], root["pre"], root["proc"], root.get("dist")),
+            _invoke(_cli_args(d, root["files"], root["nproc"], root["pre"], root["proc"], root.get("dist"),
+                              root.get("spell"), work),
                     vpool.VirtualPool, cpu=root.get("cpu"))
         except Exception as e:      # noqa: BLE001
             err = f"{type(e).__name__}: {e}"[-1500:]
@@ -313,10 +393,34 @@ def _run_schedule(d, root, assignment):
     return outs, by_chunk, err
 
 
-def _ref_bytes(d, stem, pre, proc, dist=None):
-    p = os.path.join(d, "ref", f"{pre}__{proc}{_dist_tag(dist)}", stem + ".csv")
+def _ref_bytes(d, stem, pre, proc, dist=None, spell=None):
+    p = os.path.join(d, "ref", f"{pre}__{proc}{_dist_tag(dist)}{_spell_tag(spell)}", stem + ".csv")
     with open(p, "rb") as f:
         return f.read()
+
+
+def _ref_name(d, stem, pre, proc, dist=None, spell=None):
+    p = os.path.join(d, "ref", f"{pre}__{proc}{_dist_tag(dist)}{_spell_tag(spell)}", stem + ".name")
+    with open(p) as f:
+        return f.read()
+
+
+_NAME_LINE = b'"file name(s)"'
+
+
+def _without_name_field(b):
+    """The CSV without the header line(s) carrying the recorded input name."""
+    return b"\n".join(ln for ln in b.split(b"\n") if _NAME_LINE not in ln)
+
+
+def _shape_class(root):
+    """Input class suffix: the shape of the fft_settings entries of the settings files (if not null)."""
+    out = ""
+    if root["proc"] in FFT_SHAPE and FFT_SHAPE[root["proc"]] != "int-n":
+        out += ":processing-fft_settings-" + FFT_SHAPE[root["proc"]]
+    if root["pre"] in FFT_SHAPE and FFT_SHAPE[root["pre"]] != "int-n":
+        out += ":preprocessing-fft_settings-" + FFT_SHAPE[root["pre"]]
+    return out
 
 
 def _first_diff(a, b):
@@ -404,21 +508,61 @@ def run_root(root, ctx, tier):
         if set(outs) != want:
             ctx.violation("C19:cli:output-file-set", root, detail=sched, expected=sorted(want),
                           observed=sorted(outs), explanation="the set of files written differs from one csv per input")
-        for s in root["files"]:
+        # settings files whose fft_settings entry is an empty dict / {"n": null}: which chunk orders were seen
+        for (name, kind) in ((root["proc"], "processing"), (root["pre"], "preprocessing")):
+            shape = FFT_SHAPE.get(name)
+            if shape in ("empty-dict", "null-n"):
+                # the length each file resolves: from the whole recording (PSD-style preprocessing) or from
+                # its 80 s windows (processing); padded to a power of two unless the file says "n": null
+                pad = _pow2 if shape == "empty-dict" else (lambda n: n)
+                size = ((lambda st: pad(_npts(st))) if kind == "preprocessing" else
+                        (lambda st: pad(int(FILES[st][0] * 80) + 1)))
+                for ch in chunks:
+                    st = [os.path.splitext(os.path.basename(t[0]))[0] for t in ch]
+                    if any(size(a) > size(b) for i, b in enumerate(st) for a in st[:i]):
+                        ctx.count(f"{kind}_fft_settings_{shape}_longer_first_in_chunk".replace("-", "_"))
+        spells = root.get("spell") or [None] * len(root["files"])
+        for s, spell in zip(root["files"], spells):
             got = outs.get(s + ".csv")
             if got is None:
                 continue
-            ref = _ref_bytes(d, s, root["pre"], root["proc"], root.get("dist"))
+            ref = _ref_bytes(d, s, root["pre"], root["proc"], root.get("dist"), spell)
             ctx.count("files_compared")
             ctx.outcome((s, root["pre"], root["proc"], hashlib.sha256(got).hexdigest()[:12]))
+            if spell is not None:
+                # the reference must have been given the very string the command line was given
+                typed = _spelled(d, s, spell, os.path.join(tempfile.gettempdir(), "c19-x"))
+                named = _ref_name(d, s, root["pre"], root["proc"], root.get("dist"), spell)
+                if typed != named:
+                    ctx.violation("C19:harness:reference-pipeline-was-given-another-name", root,
+                                  expected=typed, observed=named,
+                                  explanation="harness: the per-file reference was not computed for the name the "
+                                              "command line receives")
+                    continue
+                ctx.count("spelled_name_files_compared")
+                ctx.count("spelled_name_files_compared:" + spell)
+                if typed.encode() not in ref:
+                    ctx.violation("C19:harness:vacuous:typed-name-not-in-reference-csv", root,
+                                  expected=typed, observed=ref[:400].decode(errors="replace"),
+                                  explanation="harness: the reference CSV does not carry the name as typed")
+                if got != ref and _without_name_field(got) == _without_name_field(ref):
+                    ctx.violation("C19:cli:csv-file-name-field-differs-from-pipeline-given-the-typed-name",
+                                  root, detail=dict(sched, file=s, spelling=spell, typed_name=typed,
+                                                    first_difference=_first_diff(ref, got)),
+                                  expected=typed,
+                                  explanation=f"{s}.csv written by the command line for the input typed as "
+                                              f"'{typed}' equals the pipeline's CSV in every number but records "
+                                              f"another input name than read/preprocess/process/write given that "
+                                              f"same name")
+                    continue
             if got != ref:
-                cls = _classify(root, chunks, s)
+                cls = _classify(root, chunks, s) + _shape_class(root)
                 ctx.violation(f"C19:cli:csv-differs-from-single-file-pipeline:{cls}", root,
                               detail=dict(sched, file=s, first_difference=_first_diff(ref, got)),
                               explanation=f"{s}.csv written by the batch differs from the pipeline run for "
                                           f"that file alone ({cls})")
     ctx.nontrivial_case((tuple(root["files"]), root["nproc"], root.get("cpu"), root["pre"], root["proc"],
-                         tuple(root.get("dist") or ())))
+                         tuple(root.get("dist") or ()), tuple(root.get("spell") or ())))
 
 
 # ---------------------------------------------------------------------------
@@ -514,7 +658,12 @@ def _conformance(tier):
 
 
 NON_VACUITY = ["psd_preprocessing_schedules", "psd_differentiate_longer_recording_first_in_chunk",
-               "psd_differentiate_shorter_recording_first_in_chunk"]
+               "psd_differentiate_shorter_recording_first_in_chunk",
+               "processing_fft_settings_empty_dict_longer_first_in_chunk",
+               "processing_fft_settings_null_n_longer_first_in_chunk",
+               "preprocessing_fft_settings_empty_dict_longer_first_in_chunk",
+               "preprocessing_fft_settings_null_n_longer_first_in_chunk",
+               "spelled_name_files_compared"] + ["spelled_name_files_compared:" + sp for sp in SPELLINGS]
 
 
 def finalize(ctx, tier):
@@ -549,6 +698,36 @@ def finalize(ctx, tier):
                                       "its own: an inherited length could not be seen")
         else:
             ctx.count("psd_inherited_fft_length_visible")
+        # the settings files must really carry the shapes they are named after (save/load could drop them)
+        for name, shape in FFT_SHAPE.items():
+            try:
+                with open(os.path.join(d, name + ".json")) as f:
+                    entry = json.load(f).get("fft_settings", "absent")
+            except (OSError, ValueError) as e:
+                entry = f"{type(e).__name__}: {e}"
+            ok = ((shape == "empty-dict" and entry == {}) or (shape == "null-n" and entry == {"n": None}) or
+                  (shape == "int-n" and isinstance(entry, dict) and isinstance(entry.get("n"), int)))
+            if not ok:
+                ctx.violation("C19:harness:vacuous:settings-file-fft_settings-shape", dict(part="finalize", file=name),
+                              expected=shape, observed=entry,
+                              explanation="the settings file does not carry the fft_settings entry it stands for")
+            else:
+                ctx.count("settings_file_fft_settings_shape_confirmed")
+        # the typed name must be visible in the CSV: references of two spellings of one file differ, and
+        # only in the name field
+        try:
+            a, b = (_ref_bytes(d, "A100", "pre_plain", "trad"),
+                    _ref_bytes(d, "A100", "pre_plain", "trad", None, "dot-rel"))
+            same = (a == b) or (_without_name_field(a) != _without_name_field(b))
+        except OSError as e:
+            same = f"{type(e).__name__}: {e}"
+        if same is not False:
+            ctx.violation("C19:harness:vacuous:typed-name-not-visible-in-reference", dict(part="finalize"),
+                          observed=same,
+                          explanation="the reference CSVs for two spellings of one input name are equal, or differ "
+                                      "in more than the name field")
+        else:
+            ctx.count("typed_name_visible_in_reference")
     for res in _CONFORMANCE:
         ctx.count("real_pool_runs")
         if res.get("error"):
@@ -601,6 +780,33 @@ def roots(tier, seed):
                     sel = [c for c in combos if c == ("pre_plain", "trad") or "B500" in batch]
                 for (pre, proc) in sel:
                     out.append(dict(files=list(batch), nproc=nproc, cpu=cpu, pre=pre, proc=proc))
+    # every shape of the fft_settings entry of a settings file (empty dict, {"n": null})
+    if tier == "quick":
+        for L in range(1, maxlen + 1):
+            for batch in itertools.permutations(stems, L):
+                for (pre, proc) in SHAPE_COMBOS:
+                    out.append(dict(files=list(batch), nproc=1, cpu=None, pre=pre, proc=proc))
+    else:
+        for (pre, proc) in _shape_combos(tier):
+            for L in range(1, maxlen + 1):
+                for batch in itertools.permutations(stems, L):
+                    for nproc in (1, 2):
+                        if "B500" in batch and not (L == 1 and nproc == 2):
+                            out.append(dict(files=list(batch), nproc=nproc, cpu=None, pre=pre, proc=proc))
+    # spellings of the input names on the command line
+    for spell in SPELLINGS:
+        for L in (1, 2):
+            for batch in itertools.permutations(SP_STEMS, L):
+                for nproc in ((1,) if L == 1 else (1, 2)):
+                    out.append(dict(files=list(batch), nproc=nproc, cpu=None, pre="pre_plain", proc="trad",
+                                    spell=[spell] * L))
+    if tier != "quick":     # every ordered pair of spellings (the default one included) in one batch
+        for s1 in ["abs"] + SPELLINGS:
+            for s2 in ["abs"] + SPELLINGS:
+                if s1 != s2:
+                    for nproc in (1, 2):
+                        out.append(dict(files=list(SP_STEMS), nproc=nproc, cpu=None, pre="pre_plain", proc="trad",
+                                        spell=[s1, s2]))
     # two high sampling rates whose time steps are closer than 1e-5 s, sharing one padded FFT length
     for L in (1, 2):
         for batch in itertools.permutations(HI, L):
@@ -626,12 +832,26 @@ def describe(tier):
                              "; thorough: every HVSR-style preprocessing x every processing settings file, "
                              "PSD-style preprocessing with differentiate x every processing settings file, "
                              "PSD-style with a nested fft_settings dict x trad, PSD-style without "
-                             "differentiate x trad",
+                             "differentiate x trad; thorough, on batches containing B500 with --nproc 1,2: " +
+                             ", ".join("+".join(c) for c in _shape_combos("thorough")) +
+                             "; quick, on every batch with --nproc 1 (one chunk): " +
+                             ", ".join("+".join(c) for c in _shape_combos("quick")),
+                    fft_settings_entry="every shape a settings file can carry: null, {} (empty dict), "
+                                       "{\"n\": null}, {\"n\": 1024}; in the processing settings file and in "
+                                       "the PSD-style preprocessing settings file",
+                    input_names="absolute normal names everywhere; for files " + ",".join(SP_STEMS) + " with "
+                                "pre_plain+trad also the spellings " + ", ".join(SPELLINGS) + " (relative to the "
+                                "working directory, leading './', doubled separator, inner '/./', through '..'): "
+                                "single files and both ordered pairs with one spelling, --nproc 1,2; thorough adds "
+                                "every ordered pair of different spellings in one batch",
                     preprocessing_kinds="both kinds read_settings_object_from_file accepts: 'hvsr' and 'psd' "
                                         "(B500's whole recording, 85001 samples, resolves a 131072-point FFT "
                                         "for the PSD-style differentiation, every other file 32768)"),
         exhaustive=True,
-        assumptions=["interleavings between workers are reduced by the checked independence argument (disjoint "
+        assumptions=["the result for a file includes the input name `read` records (CSV header field 'file "
+                     "name(s)'): the command line's CSV is compared with the pipeline given the name exactly as "
+                     "typed; names that cannot be opened (trailing separator) are not enumerated",
+                     "interleavings between workers are reduced by the checked independence argument (disjoint "
                      "output files), not enumerated",
                      "fork start method; input files have distinct stems",
                      "miniSEED input written/read by obspy",
